@@ -354,6 +354,13 @@ def run_C03(ctx):
             texts.append("[" + ";".join(",".join(["1"] * n) for n in lens) + "]")
             texts.append("hh(v) = [" + ";".join(",".join(["v"] * n) for n in lens) + "]")
     texts += [t for t in SYNTAX_FAULTS]
+    # definition / deletion targets: a parameter is a name or a number literal and nothing else; every other expression
+    # form in every parameter position (8 tokens and more: beyond the exhaustive token enumerations above)
+    for prm in ["-1", "- 1", "-1.5e-3", "--1", "-(1)", "(1)", "(x)", "-x", "1+1", "x+1", "2!", "x!", "|1|", "⌈1⌉", "⌊x⌋", "√4", "1 m", "x m",
+                "1 as m", "[1]", "[1,2]", "q(1)", "q()", "2^2", "x y", "1 2", "", "1.5", "1e3", "π", "i", "x"]:
+        for tgt in ("pp(%s)", "pp(x, %s)", "pp(%s, 2)", "pp(%s, %s)"):
+            t = tgt % ((prm,) * tgt.count("%s"))
+            texts += ["%s = 7\n" % t, "1+1; %s = 7; pp\n" % t, "delete %s\n" % t, "pp(x) = x\ndelete %s\npp\n" % t]
     ops = ["+", "-", "*", "/", "%", "^", "dot", "cross", "•", "×"]
     for o1 in ops:
         texts += ["a %s p %s c" % (o1, o1), "a %s p %s c %s d" % (o1, o1, o1), "-a %s p %s c" % (o1, o1), "a %s p! %s c" % (o1, o1), "f(1)(2)(3) %s a %s p" % (o1, o1)]
@@ -673,6 +680,13 @@ def run_C14(ctx):
         for sep in ("\n", "; "):
             cont.append(gen.hist_case("c%d%s" % (k2, "n" if sep == "\n" else "s"), [pre, "x = 2" + sep + ft + sep + "x + 1" + sep + ft + sep + "2 * 3" + sep + "x = 5" + sep + "x\n"]))
     do_stream(ctx, "continue-after-failure", cont, P, oracle=oracles.oracle_diagnostics, setup=1)
+    # texts that BEGIN and END with blank space, blank lines, CR, or a byte-order mark (small fixed stream: replayed whole
+    # through the binary, also as the preload file): the reported line and column count from the true start of the text
+    edge = []
+    for k3, lead in enumerate(["\n", "\n\n\n", "  ", "\t", " \t \n  ", "\r\n\r\n", "\n \n\t\n", "\ufeff", "\ufeff\n", "   \n\n      "]):
+        for k4, (ft, tail) in enumerate([("1/0", "\n"), ("nope + 1", "   \n\n\n"), ("1 +", "\n"), ("x = 2\n  y = x/0", " \t "), ("2 * 3\n\n\t5 m + 1\nx", "\n \n")]):
+            edge.append(gen.hist_case("e%d_%d" % (k3, k4), [lead + ft + tail], tab=[4, 1, 8, 0, 255][k4]))
+    do_stream(ctx, "text-edges", edge, P, oracle=oracles.oracle_diagnostics)
     PP = props.proj_parse(with_pos=True)
     do_stream(ctx, "parsek-positions", gen.parsek_exhaustive(gen.REDUCED, 3 if quick else 4, "q"), PP,
               exhaustive="all token sequences over the reduced alphabet up to length %d, error kind and position compared" % (3 if quick else 4))
